@@ -5,8 +5,8 @@ CONSTANTS
   FbStartStop = {TRUE}
   Rules <- RulesRej
   Events <- EventsRej
-  BadRules <- BadAll
-  MaxRejected = 2
+  BadRules <- BadOne
+  MaxRejected = 1
   MaxRules = 1
   MaxStatus = 1
   MaxRuns = 2
